@@ -25,10 +25,13 @@ TIERS = {
     "quick": [dict(roots="all", K=1, KV=1, KU=2, shards=10),
               dict(roots="response", K=2, KV=0, KU=3, shards=8),
               dict(roots="unionholder", K=2, KV=0, KU=3, shards=10),
+              dict(roots="arrayunion", K=3, KV=0, KU=0, shards=6),
               dict(roots="alias", K=3, KV=0, KU=4, shards=2)],
     "thorough": [dict(roots="all", K=2, KV=2, KU=3, shards=32),
                  dict(roots="response", K=3, KV=0, KU=3, shards=24),
-                 dict(roots="alias", K=4, KV=0, KU=4, shards=4)],
+                 dict(roots="alias", K=4, KV=0, KU=4, shards=4),
+                 dict(roots="unionholder", K=3, KV=0, KU=0, shards=16),
+                 dict(roots="all", K=8, KV=0, KU=0, shards=16, simulate=dict(num=40, depth=8))],
 }
 
 
@@ -55,16 +58,29 @@ def one_shard(args):
     (K, KV, nshards, shard, roots, model, pkg_path, work) = args[:8]
     KU = args[8] if len(args) > 8 else 0
     names = args[9] if len(args) > 9 else ()
+    sim = args[10] if len(args) > 10 else None
     t0 = time.time()
     states = os.path.join(work, "states-%d.txt" % shard)
     trace = os.path.join(work, "trace-%d.json" % shard)
     env = {"LSP_MODEL": model}
-    rc, _ = common.run_tlc("Codec", gen_cfg(K, KV, nshards, shard, roots, KU=KU, names=names), env=env, out_path=states, heap="2g")
+    extra = ()
+    if sim:
+        # random walks of the value graph (TLC -simulate): long refinement chains beyond the BFS depth;
+        # TLC evaluates the invariants (and so prints) every successor of every visited state
+        extra = ("-simulate", "num=%d" % sim["num"], "-depth", str(sim["depth"]), "-seed", str(common.seed() * 1000 + shard + 1))
+    rc, _ = common.run_tlc("Codec", gen_cfg(K, KV, nshards, shard, roots, KU=KU, names=names), env=env, out_path=states, heap="2g", extra=extra)
     head = open(states, encoding="utf-8", errors="replace").read()
     gen_text = "\n".join(l for l in head.splitlines() if not l.startswith('"@S'))
-    if "Model checking completed. No error has been found." not in gen_text:
-        raise MachineryError("Codec.tla generation failed in shard %d:\n%s" % (shard, gen_text[-3000:]))
-    sg, sd = common.tlc_stats(gen_text)
+    if sim:
+        import re
+        m = re.search(r"The number of states generated: (\d+)", gen_text)
+        if "Error:" in gen_text or not m:
+            raise MachineryError("Codec.tla simulation failed in shard %d:\n%s" % (shard, gen_text[-3000:]))
+        sg = sd = int(m.group(1))
+    else:
+        if "Model checking completed. No error has been found." not in gen_text:
+            raise MachineryError("Codec.tla generation failed in shard %d:\n%s" % (shard, gen_text[-3000:]))
+        sg, sd = common.tlc_stats(gen_text)
     t1 = time.time()
     p = subprocess.run([common.PY, "-m", "harness.codec_driver", states, trace, model], cwd=common.VERIF,
                        env=pkg_env(pkg_path), stdout=subprocess.PIPE, stderr=subprocess.PIPE)
@@ -127,7 +143,7 @@ def run(tier, model=None, pkg_path=None, use_cache=True, passes=None):
         for pi, ps in enumerate(passes):
             d = os.path.join(work, "p%d" % pi)
             os.makedirs(d)
-            jobs += [(ps["K"], ps["KV"], ps["shards"], s, ps["roots"], model, pkg_path, d, ps.get("KU", 0), tuple(ps.get("names", ()))) for s in range(ps["shards"])]
+            jobs += [(ps["K"], ps["KV"], ps["shards"], s, ps["roots"], model, pkg_path, d, ps.get("KU", 0), tuple(ps.get("names", ())), ps.get("simulate")) for s in range(ps["shards"])]
         with cf.ThreadPoolExecutor(max_workers=common.NCPU) as ex:
             parts = list(ex.map(one_shard, jobs))
     finally:
